@@ -16,7 +16,7 @@ SRC = '/tmp/seed_out'
 DETECTED = {
     'C01_a': ('C01', {'C01': '5/5', 'C07': '2/2'}, 'C01 gained the input-form stream (generator for ndl.ndl, path for dict_ndl); C07 forms stream caught it as built'),
     'C01_b': ('C01', {'C01': '5/2'}, 'as built (per-cue alpha stream)'),
-    'C02_a': ('C02', {'C02': '4/4 (trace validation with shaken schedule: Timeout/queue.Empty)'}, 'as built'),
+    'C02_a': ('C02', {'C02': '5/8 (trace validation with shaken schedule: the unlocked get() blocks -> queue.Empty / raised)'}, 'as built'),
     'C02_b': ('C02', {'C02': '21/24'}, 'as built (schedule-dependent IOError for exact-divisor chunk sizes)'),
     'C03_a': ('C03', {'C03': '12/9'}, 'as built (snapshot of the weights argument)'),
     'C04_a': ('C04', {'C04': '6/6'}, 'needed the new stream real_very_slow (a real chunk slower than the 1 s poll)'),
